@@ -59,7 +59,7 @@ func Check() *common.Check {
 		Rule: "static: one case per strongly connected component of the call graph of pkg/sql/parser + pkg/sql/tokenizer (obligation: no cycle survives deleting the calls made under a depth guard), " +
 			"one case per function that takes part in recursion (obligation: some nesting family drives it, measured on the stack at the parser's cancellation polls), limit constants, cross-check against `callgraph -algo=static` (thorough: + cha dynamic edges); " +
 			"dynamic: every (wrapper production x holding clause) family at every depth 1…130, 200, 500, 1000 (thorough: 10^4, 10^5 and the largest depth the token/size limits allow for each wrapper in its primary clause and each clause with the parenthesis wrapper); " +
-			"limits: inputs of MaxInputSize-1/0/+1 bytes (thorough -2…+2, x2) in 7 shapes (also padding before / after a short statement) and MaxTokens-1/0/+1 tokens (thorough -2…+2, 3 shapes) through 16 text entry points (tokenizer, gosqlx, parser.Validate* / Parse*, formatter); " +
+			"limits: inputs of MaxInputSize-1/0/+1 bytes (thorough -2…+2, x2) in 7 shapes (also padding before / after a short statement) and MaxTokens-1/0/+1 tokens (thorough -2…+2) in 5 shapes (thorough 9: the last token followed by nothing, a newline, blanks, a line comment, a block comment) through 16 text entry points (tokenizer, gosqlx, parser.Validate* / Parse*, formatter); " +
 			"distinct = distinct (family, depth) / (shape, size, entry point) / graph component; non-trivial = input accepted, or rejected with a limit error (E1006/E1007/E2007/CTE depth), or a static obligation",
 		Assume: []string{
 			"call edges through stored function values are resolved only at the place where the function is mentioned (cross-checked against callgraph -algo=static; thorough adds the intra-library dynamic edges of -algo=cha)",
@@ -807,6 +807,10 @@ func sizeShape(shape string, n int) []byte {
 // tokenShape builds an input with exactly n non-EOF tokens.
 func tokenShape(shape string, n int) []byte {
 	var b bytes.Buffer
+	tail := ""
+	if i := strings.Index(shape, "+"); i > 0 {
+		shape, tail = shape[:i], shape[i+1:]
+	}
 	unit, first := ",1", "SELECT 1"
 	switch shape {
 	case "strings":
@@ -829,17 +833,28 @@ func tokenShape(shape string, n int) []byte {
 	if have < n {
 		b.WriteString(" ;")
 	}
+	// what follows the last token is not a token: the count is the same
+	switch tail {
+	case "newline":
+		b.WriteString("\n")
+	case "blanks":
+		b.WriteString("  \t \n  ")
+	case "line-comment":
+		b.WriteString(" -- the end")
+	case "block-comment":
+		b.WriteString(" /* the end */\n")
+	}
 	return b.Bytes()
 }
 
 func limitCases(e *common.Enum) {
 	sizes := []int{docSize - 1, docSize, docSize + 1}
 	toks := []int{docTokens - 1, docTokens, docTokens + 1}
-	tshapes := []string{"commas"}
+	tshapes := []string{"commas", "commas+newline", "commas+blanks", "commas+line-comment", "commas+block-comment"}
 	if e.Thorough() {
 		sizes = []int{docSize - 2, docSize - 1, docSize, docSize + 1, docSize + 2, 2 * docSize}
 		toks = []int{docTokens - 2, docTokens - 1, docTokens, docTokens + 1, docTokens + 2}
-		tshapes = []string{"commas", "strings", "sums"}
+		tshapes = append(tshapes, "strings", "sums", "strings+newline", "sums+line-comment")
 	}
 	for _, shape := range []string{"comment", "whitespace", "string", "identifiers", "trailing-blanks", "leading-blanks", "trailing-comment"} {
 		for _, n := range sizes {
@@ -910,7 +925,7 @@ func limitCases(e *common.Enum) {
 					}
 					tag := "tokens:" + shape
 					switch {
-					case n < docTokens && code == "E1007":
+					case n <= docTokens && code == "E1007":
 						c.Fail("limit-too-early:"+tag, fmt.Sprintf("%s: input of %d tokens plus EOF (limit %d) rejected with the token-limit error: %v", en.name, n, docTokens, common.Trim(err.Error(), 200)))
 					case n > docTokens && err == nil:
 						c.Fail("limit-not-enforced:"+tag, fmt.Sprintf("%s: input of %d tokens (limit %d) accepted", en.name, n, docTokens))
